@@ -73,7 +73,7 @@ def _run(case):
                     b.event.register_listener(ch, (lambda e, ch=ch, lid=lid, pr=pr: self._l(ch, lid, pr, e)), pr)
 
         def _l(self, ch, lid, pr, e):
-            LOG.append([ch, lid, pr, tick(self.clock()), tick(e.time), tick(e.step_size), len(e.index)])
+            LOG.append([ch, lid, pr, tick(self.clock()), tick(e.time), tick(e.step_size), len(e.index) if e.index is not None else -1])
 
         def on_time_step_prepare(self, e):
             self._l(CH[0], self.spec["hooks"][0][1], self.spec["hooks"][0][0], e)
@@ -119,13 +119,14 @@ def _run(case):
             if mode == "run_simulation":
                 sim.setup(); sim.initialize_simulants()          # noqa: E702
                 out["t0"], out["stop"], out["h"] = tick(sim._clock.time), tick(sim._clock.stop_time), tick(sim._clock.step_size)
-                sim.run(); sim.finalize()                        # noqa: E702
+                sim.run(); sim.finalize(); sim.report(print_results=False)   # noqa: E702
             else:
                 sim.setup(); sim.initialize_simulants()          # noqa: E702
                 out["t0"], out["stop"], out["h"] = tick(sim._clock.time), tick(sim._clock.stop_time), tick(sim._clock.step_size)
                 while sim.current_time < sim._clock.stop_time:
                     sim.step()
                 sim.finalize()
+                sim.report(print_results=False)
         else:
             sim = InteractiveContext(components=comps, configuration=cfg, plugin_configuration=plug, logging_verbosity=0)
             out["t0"], out["stop"], out["h"] = tick(sim._clock.time), tick(sim._clock.stop_time), tick(sim._clock.step_size)
@@ -139,6 +140,7 @@ def _run(case):
                 n = math.ceil(Fraction(out["stop"] - out["t0"], out["h"]))
                 sim.take_steps(max(n, 0), with_logging=False)
             sim.finalize()
+            sim.report(print_results=False)
         out["final_clock"] = tick(sim._clock.time)
     except Exception as e:  # noqa: BLE001
         out["error"] = f"{type(e).__name__}: {e}"
@@ -187,7 +189,7 @@ class C08(Prop):
             lid[0] += 1
         explicit = []
         for _ in range(rng.randint(0, 3)):
-            explicit.append([rng.choice(CH + ["simulation_end"]), rng.choice([None] + list(range(10))), lid[0]])
+            explicit.append([rng.choice(CH + CH + ["simulation_end", "post_setup", "report"]), rng.choice([None] + list(range(10))), lid[0]])
             lid[0] += 1
         return {"name": f"c{k}", "hooks": hooks, "explicit": explicit}
 
@@ -329,8 +331,16 @@ class C08(Prop):
         n = max(0, math.ceil(Fraction(stop - t0, h)))
         regs = self._regs(case)
         calls = obs["log"]
-        # expected emissions in order
+        # expected emissions in order: post_setup (once, before the population exists), the steps, simulation_end, report
         pos = 0
+        want_ps = sorted([(p, i) for c, p, i in regs if c == "post_setup"])
+        grp = calls[:len(want_ps)]
+        pos = len(want_ps)
+        if sorted((c[2], c[1]) for c in grp) != want_ps or any(c[0] != "post_setup" for c in grp):
+            f.append({"sig": "listener-set", "msg": f"post_setup: called {[(c[0], c[1], c[2]) for c in grp]}, registered {want_ps}"})
+            return f
+        if any(a[2] > b[2] for a, b in zip(grp, grp[1:])):
+            f.append({"sig": "priority-order", "msg": f"post_setup: priorities {[c[2] for c in grp]}"})
         for k in range(n):
             clock = t0 + k * h
             for ch in CH:
@@ -347,9 +357,16 @@ class C08(Prop):
                         f.append({"sig": "event-fields", "msg": f"step {k} {ch}: clock {c[3]} time {c[4]} step {c[5]}; expected {clock} {clock + h} {h}"})
                         return f
         want_end = sorted([(p, i) for c, p, i in regs if c == "simulation_end"])
-        grp = calls[pos:]
+        want_rep = sorted([(p, i) for c, p, i in regs if c == "report"])
+        grp = calls[pos:pos + len(want_end)]
+        rep = calls[pos + len(want_end):]
         if sorted((c[2], c[1]) for c in grp) != want_end or any(c[0] != "simulation_end" for c in grp):
-            f.append({"sig": "end-events", "msg": f"after {n} steps: remaining calls {[(c[0], c[1]) for c in grp][:8]} (expected simulation_end once per listener)"})
+            f.append({"sig": "end-events", "msg": f"after {n} steps: calls {[(c[0], c[1]) for c in grp][:8]} (expected simulation_end once per listener)"})
+        elif sorted((c[2], c[1]) for c in rep) != want_rep or any(c[0] != "report" for c in rep):
+            f.append({"sig": "end-events", "msg": f"after simulation_end: calls {[(c[0], c[1]) for c in rep][:8]} (expected report once per listener)"})
+        for g in (grp, rep):
+            if any(a[2] > b[2] for a, b in zip(g, g[1:])):
+                f.append({"sig": "priority-order", "msg": f"end events: priorities {[c[2] for c in g]}"})
         if obs["final_clock"] != t0 + n * h:
             f.append({"sig": "final-clock", "msg": f"final clock {obs['final_clock']}, expected {t0 + n * h} after {n} steps"})
         for name, clock, ctime, cwin, cnt in obs["init"]:
